@@ -302,8 +302,22 @@ pub fn judge_keepalive(rt: &tokio::runtime::Runtime, r: &mut Report, case: &KCas
     let body = "<CompleteMultipartUpload><Part><ETag>\"a\"</ETag><PartNumber>1</PartNumber></Part></CompleteMultipartUpload>";
     let mut req = RawRequest::new("POST", "/bucket-k/key-k?uploadId=u1").header("host", "h.example").header("content-length", &body.len().to_string());
     req.body = body.as_bytes().to_vec();
+    // every third completion: the backend attaches extra headers, one name twice (they can only travel as trailers)
+    let mut extra: Vec<(&str, String)> = Vec::new();
+    if seed % 3 == 0 {
+        extra.push(("x-verif-extra-1", format!("node-a-{}", seed % 97)));
+        extra.push(("x-verif-extra-2", "a b  c, d".to_owned()));
+        extra.push(("x-verif-extra-1", format!("node-b-{}", seed % 89)));
+        if seed % 2 == 0 {
+            extra.push(("x-verif-extra-1", "node-c".to_owned()));
+        }
+    }
+    let mut extra_map = HeaderMap::new();
+    for (k, v) in &extra {
+        extra_map.append(HeaderName::from_static(k), HeaderValue::from_str(v).expect("header value"));
+    }
     let inner = match &case.error {
-        None => Script::Output(Box::new(Answer { output: AnyOutput::CompleteMultipartUpload(w.clone()), status: None, headers: HeaderMap::new() })),
+        None => Script::Output(Box::new(Answer { output: AnyOutput::CompleteMultipartUpload(w.clone()), status: None, headers: extra_map })),
         Some(code) => {
             let mut e = s3s::S3Error::with_message(s3s::S3ErrorCode::from_bytes(code.as_bytes()).unwrap_or(s3s::S3ErrorCode::InternalError), "late failure <&> of the backend");
             e.set_request_id("req-keepalive-1");
@@ -418,6 +432,14 @@ pub fn judge_keepalive(rt: &tokio::runtime::Runtime, r: &mut Report, case: &KCas
                 }
                 if want.is_some() && !declared.contains(&name.to_owned()) {
                     r.violated(format!("C03/keep-alive/trailer-not-declared/{name}"), wit(json!({"declared": declared})));
+                    return;
+                }
+            }
+            // every extra header of the backend, every value of it, in the response headers or in the trailers
+            for (k, v) in &extra {
+                let there = resp.headers.iter().chain(trailers.iter()).any(|(n, val)| n.eq_ignore_ascii_case(k) && val == v.as_bytes());
+                if !there {
+                    r.violated("C03/keep-alive/extra-header-missing", wit(json!({"header": k, "value": v, "trailers": trailers.iter().map(|(k, v)| format!("{k}: {}", String::from_utf8_lossy(v))).collect::<Vec<_>>()})));
                     return;
                 }
             }
